@@ -16,6 +16,7 @@
 From BT Require Import Base.Util Base.Float Model.RTree Model.BBIFile Model.BigWigWrite Model.Pipeline
   Proofs.PipelineInv Proofs.PipelineThms Proofs.PipelineConv Proofs.PipelineLanes.
 From BT Require Model.TempBuf Model.BigBedWrite Proofs.BedZoomFit Proofs.PipelineBed.
+From BT Require Import Model.PipelineConc Proofs.PipelineRefine.
 
 (* FIFO order.  In every reachable state, for every completion order of the encode tasks, what the
    write task of chromosome k has written, followed by what is queued, followed by what is not yet
@@ -194,6 +195,61 @@ Theorem C11_converter_await_never_blocks : forall win out0 Ts sched,
 Proof. exact converter_await_never_blocks. Qed.
 Print Assumptions C11_converter_await_never_blocks.
 
+(* ---------------------------------------------------------------- refinement: the staging buffers in full
+   Model/PipelineConc.v is the machine above in which the staging buffer of every chromosome is the C12
+   machine itself (Model/TempBuf.v: one state per chromosome, one transition per shared-memory access):
+   its producer is the write task through a BufWriter (ANY cutting [opss] of the chromosome's section bytes
+   into write()/flush() calls; a write can only pass on bytes the BufWriter was given; the Drop comes after
+   the loop), its consumer is the splice task (switch; [np] readiness polls, 0 in the writers; await_real_file
+   = take [closed] - the Condvar wait - then swap the mailbox).  What await_real_file hands back is whatever
+   the buffer machine delivers.  [cabs] forgets the buffers. *)
+
+(* Forward simulation with stuttering: every transition of the concrete machine out of a reachable state is
+   a transition of the abstract machine between the abstractions or leaves the abstraction unchanged. *)
+Theorem C11_refine_step : forall g np pre Ss opss sched t s', g_fifo g = true ->
+  Forall2 (fun ops S => TempBuf.written ops = data_bytes S) opss Ss ->
+  let s := crun g sched (cinit np pre Ss opss) in
+  cstep g t s = Some s' ->
+  cabs s' = cabs s \/ exists t', step g t' (cabs s) = Some (cabs s').
+Proof. exact pipeline_refine_step. Qed.
+Print Assumptions C11_refine_step.
+
+(* Hence every run of the concrete machine is, through the abstraction, a run of the abstract machine: all
+   the theorems above about reachable abstract states hold of the concrete machine. *)
+Theorem C11_refines : forall g np pre Ss opss sched, g_fifo g = true ->
+  Forall2 (fun ops S => TempBuf.written ops = data_bytes S) opss Ss ->
+  exists sched', cabs (crun g sched (cinit np pre Ss opss)) = run g sched' (init pre Ss).
+Proof. exact pipeline_refines. Qed.
+Print Assumptions C11_refines.
+
+(* The other half of the simulation relation: in every reachable concrete state the buffer of chromosome k
+   is a state of the C12 machine on a run from ITS initial state (the chromosome's write calls, the splice
+   task's program) with the destination  pre ++ chromosomes 0..k-1 ; C12's theorems therefore apply to it
+   (C12_no_panic, C12_delivery: no panic branch taken; a destination handed back holds chromosomes 0..k). *)
+Theorem C11_buffers_are_c12 : forall g np pre Ss opss sched, g_fifo g = true ->
+  Forall2 (fun ops S => TempBuf.written ops = data_bytes S) opss Ss ->
+  let s := crun g sched (cinit np pre Ss opss) in
+  length (k_x s) = length Ss /\
+  forall k x, nth_error (k_x s) k = Some x ->
+    (exists sch, x_buf x = TempBuf.run (Dk pre Ss k) sch (TempBuf.init (nth k opss []) (cprog np))) /\
+    TempBuf.panicked (x_buf x) = false /\
+    (forall r, TempBuf.c_dest (x_buf x) = Some r -> r = Dk pre Ss (S k)).
+Proof. exact pipeline_buffers_c12. Qed.
+Print Assumptions C11_buffers_are_c12.
+
+(* K chromosomes, any schedule, any cutting of the bytes into write() calls: no reachable state of the
+   concrete machine has a panicked buffer, the file always holds whole chromosomes in order, and every
+   finishing run has written the sequential function's bytes and index. *)
+Theorem C11_splice_concrete : forall g np pre Ss opss sched, g_fifo g = true ->
+  Forall2 (fun ops S => TempBuf.written ops = data_bytes S) opss Ss ->
+  let s := crun g sched (cinit np pre Ss opss) in
+  (forall k x, nth_error (k_x s) k = Some x -> TempBuf.panicked (x_buf x) = false) /\
+  sp_file (cabs s) = pre ++ data_bytes (concat (firstn (sp_k (cabs s)) Ss)) /\
+  (cterminal s = true ->
+     sp_file (cabs s) = seq_file pre Ss /\ final_index (Nlen pre) (cabs s) = seq_index pre Ss).
+Proof. exact pipeline_splice_concrete. Qed.
+Print Assumptions C11_splice_concrete.
+
 (* ---------------------------------------------------------------- non-vacuity *)
 Local Open Scope N_scope.
 Definition sec (c s e : N) (b : bytes) : sdata := {| sd_chrom := c; sd_start := s; sd_end := e; sd_bytes := b |}.
@@ -299,4 +355,45 @@ Proof. vm_compute. repeat split. Qed.
 Example C11_example_converter_nonterminal :
   vterminal (vrun 2 [VDriver; VFile 0; VMain] (vinit [] [[[1]]; [[2]]])) = false /\
   v_pc (vrun 1 [VDriver; VFile 0; VFile 0; VMain; VMain] (vinit [] [[[1]]; [[2]]])) = VAwait.
+Proof. vm_compute. repeat split. Qed.
+
+(* The concrete machine on the three chromosomes above.  The BufWriter of chromosome 0 cuts its six bytes
+   as [1;2] [3;4;5] flush [6] (not at section boundaries).  Chromosomes 2 and 1 are staged completely
+   first; the switch of chromosome 0 lands between update() and the local write of its first write() (the
+   bytes [1;2] are staged and migrate on the next update()); a write(w) whose bytes the BufWriter does not
+   hold yet stutters; the Drop before the loop has ended stutters; chromosomes 1 and 2 are switched after
+   their writers were dropped (the splice task finishes the copy itself). *)
+Definition ex_opss : list (list TempBuf.pop) :=
+  [ [TempBuf.PWrite [1; 2]; TempBuf.PWrite [3; 4; 5]; TempBuf.PFlush; TempBuf.PWrite [6]];
+    [TempBuf.PWrite [7; 8]]; [TempBuf.PWrite [9]; TempBuf.PWrite [10; 11; 12]] ].
+Definition ex_csched : list ctask :=
+  [CMain; CMain; CMain;
+   CProd 2; CProd 2; CEnc 2 1; CEnc 2 0; CWrite 2; CBuf 2; CBuf 2; CWrite 2; CBuf 2; CBuf 2;
+   CProd 1; CEnc 1 0; CWrite 1; CBuf 1; CBuf 1;
+   CProd 0; CProd 0; CEnc 0 1; CWrite 0; CEnc 0 0; CWrite 0; CBuf 0; CSplice; CBuf 0; CWrite 0; CBuf 0;
+   CProd 0; CEnc 0 0; CWrite 0; CBuf 0; CBuf 0; CBuf 0; CMain; CBuf 0; CBuf 0; CBuf 0; CWrite 0; CBuf 0;
+   CSplice; CSplice; CSplice;
+   CMain; CMain; CMain; CWrite 1; CBuf 1; CWrite 2; CBuf 2;
+   CSplice; CSplice; CSplice; CSplice; CSplice; CSplice; CSplice; CSplice; CSplice].
+Example C11_example_concrete :
+  Forall2 (fun ops S => TempBuf.written ops = data_bytes S) ex_opss ex_Ss /\
+  (let s := crun ex_g (firstn 27 ex_csched) (cinit 0 [100; 101] ex_Ss ex_opss) in
+   sp_pc (cabs s) = SAwaitTask /\
+   map (fun x => (x_bw x, TempBuf.mailbox (x_buf x), TempBuf.p_state (x_buf x))) (k_x s) =
+     [([3], Some [100; 101], TempBuf.Staged [1; 2]); ([], None, TempBuf.Staged [7; 8]); ([], None, TempBuf.Staged [9; 10; 11; 12])]) /\
+  (let s := crun ex_g ex_csched (cinit 0 [100; 101] ex_Ss ex_opss) in
+   cterminal s = true /\ sp_file (cabs s) = [100; 101; 1; 2; 3; 4; 5; 6; 7; 8; 9; 10; 11; 12] /\
+   map (fun x => TempBuf.c_dest (x_buf x)) (k_x s) =
+     [Some [100; 101; 1; 2; 3; 4; 5; 6]; Some [100; 101; 1; 2; 3; 4; 5; 6; 7; 8];
+      Some [100; 101; 1; 2; 3; 4; 5; 6; 7; 8; 9; 10; 11; 12]]).
+Proof.
+  split; [repeat constructor|]. vm_compute. repeat split.
+Qed.
+
+(* round-robin over all tasks, with two readiness polls per chromosome and one write() per section *)
+Example C11_example_concrete_round_robin :
+  let s := crun (mkg 1 1 true) (crounds 40 (all_ctasks 3 1)) (cinit 2 [100; 101] ex_Ss (map ops_per_section ex_Ss)) in
+  cterminal s = true /\ sp_file (cabs s) = seq_file [100; 101] ex_Ss /\
+  map (fun x => TempBuf.c_obs (x_buf x)) (k_x s) =
+    [[TempBuf.OReady false; TempBuf.OReady false]; [TempBuf.OReady true; TempBuf.OReady true]; [TempBuf.OReady true; TempBuf.OReady true]].
 Proof. vm_compute. repeat split. Qed.
